@@ -212,6 +212,14 @@ func runC17(ctx *Ctx, c *xt.T) (*xt.T, Verdict) {
 	if entry >= 30 && entry <= 35 {
 		return c17RunStore(entry, b, c.Kids[2].N != 0)
 	}
+	switch entry {
+	case 40:
+		return c17RunHex(b)
+	case 41:
+		return c17RunJSON(b, int(c.Kids[2].N))
+	case 42:
+		return c17RunClient(b, int(c.Kids[2].N), int(c.Kids[3].N))
+	}
 	full := b
 	if entry == 22 || entry == 23 {
 		b = b[:int(c.Kids[2].N)]
@@ -609,6 +617,35 @@ func c17GenReceive(ctx *Ctx, add func(tag string, nt bool, c *xt.T)) {
 	for _, p := range c17ReceiveWitnesses() {
 		add("recv-witness", true, c17ReceiveCase(p))
 	}
+	// primary-key indices at every boundary of the column count, over well-formed blocks
+	for ncols := 1; ncols <= 3; ncols++ {
+		cols := make([]string, ncols)
+		for i := range cols {
+			cols[i] = fmt.Sprintf("c%d", i)
+		}
+		rows := c18Rows(ctx, 1+ctx.Pick(3), ncols)
+		raw := c18BlockBytes(rows)
+		blk := c17Obj{packfile.ObjectBlock, s2.EncodeBetter(nil, raw)}
+		n := uint32(ncols)
+		for _, pk := range [][]uint32{
+			{n - 1}, {n}, {n + 1}, {1 << 31}, {1<<32 - 1}, {0, 0}, {n - 1, n - 1}, {n - 1, n}, {n, n - 1},
+			{0, n}, {n, n}, {0, 1<<32 - 1}, {n - 1, n + 1}, {},
+		} {
+			idx := make([]byte, 16)
+			inRange := true
+			for _, k := range pk {
+				if k >= n {
+					inRange = false
+				}
+			}
+			if inRange {
+				idx = c17Meow(c18BlockIndexBytes(rows, pk))
+			}
+			tb := c18TableBytes(cols, pk, uint32(len(rows)), [][]byte{c17Meow(raw)}, [][]byte{idx})
+			add("recv-pk", true, c17ReceiveCase(c17Pack([]c17Obj{blk, {packfile.ObjectTable, tb}})))
+			ctx.Count("recv_pk_boundary")
+		}
+	}
 	n := 12
 	if ctx.Thorough() {
 		n = 150
@@ -827,6 +864,7 @@ func genC17(ctx *Ctx) []Case {
 		}
 	}
 	c17GenStore(ctx, add)
+	c17GenJSON(ctx, add)
 	// short raw strings
 	alpha := []byte{0x00, 0x01, 0x80, 0xff}
 	var rec func(prefix []byte, depth int)
